@@ -132,13 +132,27 @@ def gen_periodic(rng: Rng, malformed: bool = False) -> dict:
     steps = []
     for _ in range(rng.range(5, 40)):
         steps.append([rng.range(-v, v) if v >= 0 else 0, rng.below(n) if n else 0])
-    return {"agent": kind, "start": start, "sv": sv, "f": f, "v": v, "max": mx, "n": n, "d0": d0, "steps": steps}
+    nodes = rng.shuffle(["cl-a", "cl-b", "cl-c"])[:n]
+    app = rng.choice(["the-app", "web-browser", "database-client"] + ([None] if kind == "dm" else []))   # None: the dm default
+    return {"agent": kind, "start": start, "sv": sv, "f": f, "v": v, "max": mx, "n": n, "nodes": nodes, "app": app, "d0": d0, "steps": steps}
+
+
+def periodic_nodes(case: dict) -> List[str]:
+    return case.get("nodes", [f"node{i}" for i in range(case["n"])])
+
+
+def periodic_app(case: dict) -> str:
+    """The application the agent is configured with (`data-manipulation-bot` when a dm case leaves it out: Gen.dmDefaultApplication)."""
+    a = case.get("app", "the-app")
+    return "data-manipulation-bot" if a is None else a
 
 
 def periodic_cfg(case: dict) -> dict:
     kind = case["agent"]
     settings = {"start_step": case["start"], "start_variance": case["sv"], "frequency": case["f"], "variance": case["v"],
-                "possible_start_nodes": [f"node{i}" for i in range(case["n"])], "target_application": "the-app"}
+                "possible_start_nodes": list(periodic_nodes(case))}
+    if case.get("app", "the-app") is not None:
+        settings["target_application"] = case.get("app", "the-app")
     if kind == "periodic" or case["max"] != 999999:
         settings["max_executions"] = case["max"]
     return {"ref": "a", "team": "GREEN", "type": "periodic-agent" if kind == "periodic" else "red-database-corrupting-agent",
@@ -178,8 +192,8 @@ def run_periodic(case: dict) -> Tuple[List[str], List[str]]:
                 continue
             if act == "do-nothing" and par == {}:
                 o = "nothing"
-            elif act == "node-application-execute" and par.get("application_name") == "the-app":
-                o = f"exec {int(par['node_name'][4:])}"
+            elif act == "node-application-execute":
+                o = "exec " + canon_action(act, par)
                 if ("randint", -case["v"], case["v"]) not in d.calls:
                     problems.append(f"step {t}: schedule draw range {d.calls} != randint({-case['v']},{case['v']})")
             else:
@@ -190,7 +204,8 @@ def run_periodic(case: dict) -> Tuple[List[str], List[str]]:
 
 
 def lines_periodic(case: dict) -> List[str]:
-    ls = [f"p-init {case['agent']} {case['start']} {case['sv']} {case['f']} {case['v']} {case['max']} {case['n']} {case['d0']}"]
+    ls = [f"p-init {case['agent']} {case['start']} {case['sv']} {case['f']} {case['v']} {case['max']} "
+          f"{','.join(periodic_nodes(case)) or '-'} {periodic_app(case)} {case['d0']}"]
     for t, (d, k) in enumerate(case["steps"]):
         ls.append(f"p-step {t} {d} {k}")
     return ls
@@ -649,7 +664,7 @@ class Params3:
     def check(self, agent, t, act, par, status_prev) -> List[str]:
         if self.pending is not None:
             if status_prev == "success":
-                self.know[self.pending[0]] = self.pending[1]
+                self.know[self.pending[0]] = {**self.know.get(self.pending[0], {}), **self.pending[1]}   # other keys (ip_address) are kept
             self.pending = None
         if act == "do-nothing":
             return []
